@@ -9,7 +9,8 @@ impl<const BITS: usize, const LIMBS: usize> Uint<BITS, LIMBS> {
     #[inline]
     #[must_use]
     pub fn checked_log(self, base: Self) -> Option<usize> {
-        if base < Self::from(2) || self.is_zero() {
+        // `base < 2`, without constructing `2` (which does not fit if `BITS < 2`).
+        if base.bit_len() < 2 || self.is_zero() {
             return None;
         }
         Some(self.log(base))
@@ -21,7 +22,11 @@ impl<const BITS: usize, const LIMBS: usize> Uint<BITS, LIMBS> {
     #[inline]
     #[must_use]
     pub fn checked_log10(self) -> Option<usize> {
-        self.checked_log(Self::from(10))
+        match Self::try_from(10) {
+            Ok(base) => self.checked_log(base),
+            // `BITS < 4`: every non-zero value is less than ten.
+            Err(_) => (!self.is_zero()).then_some(0),
+        }
     }
 
     /// Returns the base 2 logarithm of the number, rounded down.
@@ -32,7 +37,11 @@ impl<const BITS: usize, const LIMBS: usize> Uint<BITS, LIMBS> {
     #[inline]
     #[must_use]
     pub fn checked_log2(self) -> Option<usize> {
-        self.checked_log(Self::from(2))
+        match Self::try_from(2) {
+            Ok(base) => self.checked_log(base),
+            // `BITS < 2`: every non-zero value is less than two.
+            Err(_) => (!self.is_zero()).then_some(0),
+        }
     }
 
     /// Returns the logarithm of the number, rounded down.
@@ -98,7 +107,14 @@ impl<const BITS: usize, const LIMBS: usize> Uint<BITS, LIMBS> {
     #[inline]
     #[must_use]
     pub fn log10(self) -> usize {
-        self.log(Self::from(10))
+        match Self::try_from(10) {
+            Ok(base) => self.log(base),
+            // `BITS < 4`: every non-zero value is less than ten.
+            Err(_) => {
+                assert!(!self.is_zero());
+                0
+            }
+        }
     }
 
     /// Returns the base 2 logarithm of the number, rounded down.
@@ -109,7 +125,14 @@ impl<const BITS: usize, const LIMBS: usize> Uint<BITS, LIMBS> {
     #[inline]
     #[must_use]
     pub fn log2(self) -> usize {
-        self.log(Self::from(2))
+        match Self::try_from(2) {
+            Ok(base) => self.log(base),
+            // `BITS < 2`: every non-zero value is less than two.
+            Err(_) => {
+                assert!(!self.is_zero());
+                0
+            }
+        }
     }
 
     /// Double precision logarithm.
